@@ -453,3 +453,41 @@ Example C12_instance_found :
 Proof. exact example_found. Qed.
 Example C12_instance_builder_valid : builder_valid ex_params.
 Proof. exact example_params_builder_valid. Qed.
+
+(* ------------------------------------------------------------------------------------------ *)
+(* ORACLE SOUNDNESS, PARTIAL (Proofs/FdlOracleSound1-7.v; see Properties/C01.v for model_transcript): on a
+   transcript of the model - ALL input histories, any number of total applications that hand data telegrams to
+   the PHY - the monitors never report one of the rules
+     R12_gap_poll_outside_gap, R12_two_gap_polls_per_visit (C12_poll_in_gap / C12_one_per_visit),
+     R12_found_not_successor, R12_found_not_next_token, R12_successor_changed_without_ready_reply
+     (C12_found_becomes_successor).
+   NOT covered by this theorem (see lib/props.py): R12_reply_without_request, R12_reply_untruthful,
+   R12_reply_from_wrong_state, R12_sweep_bound, R12_post_claim_scan_incomplete, R12_gap_wait_never_ends. *)
+From PB Require Import Params C05Proofs FdlOracle FdlOracleSound1 FdlOracleSound5 FdlOracleSound7.
+
+Theorem C12_oracle_sound_partial : forall (A : Type) (ops : app_ops A) (p : params),
+  apps_total A ops -> builder_valid p -> app_sends_data A ops ->
+  forall (apps : list A) (ins : list minput), ins_ok 0 ins ->
+  forall k r, In (k, r) (monitor p (length apps) (model_transcript A ops p apps ins)) ->
+  ~ In r [R12_gap_poll_outside_gap; R12_two_gap_polls_per_visit;
+          R12_found_not_successor; R12_found_not_next_token; R12_successor_changed_without_ready_reply].
+Proof. exact c12_oracle_sound_partial. Qed.
+Print Assumptions C12_oracle_sound_partial.
+
+(* ORACLE SOUNDNESS, PARTIAL, second part (Proofs/FdlOracleSound10-11.v, FdlOracleSoundAll.v): the status-reply rules.
+   For applications that transmit REQUEST telegrams (`app_sends_requests`: what an application hands to the PHY
+   decodes as a data telegram with a request function code - the monitor takes a response telegram with the own
+   source address for a status reply of the station) the only rules of C12 that can be reported on a transcript
+   of the model are R12_sweep_bound, R12_post_claim_scan_incomplete and the liveness rule R12_gap_wait_never_ends;
+   i.e. in addition to the rules of C12_oracle_sound_partial also R12_reply_without_request, R12_reply_untruthful
+   and R12_reply_from_wrong_state are never reported.  (The request the station has pending is the one the
+   monitor recorded from the last delivered telegram: invariant RQ of FdlOracleSound11.) *)
+From PB Require Import FdlOracleSound11 FdlOracleSoundAll.
+
+Theorem C12_oracle_sound_partial_req : forall (A : Type) (ops : app_ops A) (p : params),
+  apps_total A ops -> builder_valid p -> app_sends_data A ops ->
+  forall (apps : list A) (ins : list minput), app_sends_requests A ops -> ins_ok 0 ins ->
+  forall k r, In (k, r) (monitor p (length apps) (model_transcript A ops p apps ins)) -> rule_prop r = PC12 ->
+  In r [R12_sweep_bound; R12_post_claim_scan_incomplete; R12_gap_wait_never_ends].
+Proof. exact c12_open_req. Qed.
+Print Assumptions C12_oracle_sound_partial_req.
